@@ -31,6 +31,14 @@ fn many_funcs(rng: &mut Rng, n: usize, bad: &[usize]) -> Vec<u8> {
         funcs.function(*t);
     }
     m.section(&funcs);
+    // a table filled by element segments of both styles, in both orders (decided from `n`, no random
+    // draw): expression items (`ref.func`) and function indices in one element section
+    let with_elems = n >= 4;
+    if with_elems {
+        let mut tabs = TableSection::new();
+        tabs.table(TableType { element_type: RefType::FUNCREF, minimum: 8, maximum: None, table64: false, shared: false });
+        m.section(&tabs);
+    }
     let mut mem = MemorySection::new();
     mem.memory(MemoryType { minimum: 1, maximum: None, memory64: false, shared: false, page_size_log2: None });
     m.section(&mem);
@@ -41,6 +49,21 @@ fn many_funcs(rng: &mut Rng, n: usize, bad: &[usize]) -> Vec<u8> {
         }
     }
     m.section(&ex);
+    if with_elems {
+        let mut els = ElementSection::new();
+        let (a, b, c, d) = (0u32, (n / 2) as u32, (n - 1) as u32, (n - 2) as u32);
+        let exprs = [ConstExpr::ref_func(a), ConstExpr::ref_func(b)];
+        if n % 2 == 0 {
+            els.passive(Elements::Expressions(RefType::FUNCREF, &exprs));
+            els.active(None, &ConstExpr::i32_const(0), Elements::Functions(&[c, d]));
+            els.declared(Elements::Functions(&[d, a]));
+        } else {
+            els.active(None, &ConstExpr::i32_const(2), Elements::Functions(&[c, d]));
+            els.active(Some(0), &ConstExpr::i32_const(4), Elements::Expressions(RefType::FUNCREF, &exprs));
+            els.passive(Elements::Functions(&[b, c, a]));
+        }
+        m.section(&els);
+    }
     // an active data segment whose only users (`data.drop`, `memory.init`) sit in one or two
     // functions, often the last ones: whether the data count section is written is decided by a
     // scan over all functions
